@@ -163,3 +163,58 @@ def target_cycle_reports():
 
 
 TARGETS = {"_find_module_import_dependencies": target_module_import_dependencies, "dependency_edges": target_edges, "cycle_reports": target_cycle_reports}
+
+
+def target_wiring():
+    """Which IR nodes the edge functions are applied to: _find_dependencies, _find_dependency_ordering_for_fields and
+    set_dependency_order over the callee contract of traverse_ir.fast_traverse_ir_top_down (assumed, as in
+    contracts/resolver2.py).  Every Field / EnumValue / RuntimeParameter becomes a node (and the current `name`) in both
+    traversals; plain references are edges except below an atomic type's own reference, an attribute, or a field reference
+    (whose HEAD is the edge, added by the second traversal - this time also inside atomic types, i.e. in type arguments)."""
+    dc = importlib.import_module(DC)
+    ir_data = importlib.import_module("compiler.util.ir_data")
+    traverse_ir = importlib.import_module("compiler.util.traverse_ir")
+    eng = pyvc.Engine()
+    log = []
+    inject = {}
+
+    def traverse(interp, ir, pattern, action, incidental_actions=None, skip_descendants_of=(), parameters=None):
+        log.append((tuple(pattern), action, dict(incidental_actions or {}), set(skip_descendants_of), dict(parameters or {})))
+        if inject.get(len(log)):
+            parameters["errors"].append("ERR%d" % len(log))
+    eng.contract(traverse_ir.fast_traverse_ir_top_down, traverse, "traverse_ir.fast_traverse_ir_top_down")
+    NODES = {ir_data.Field: dc._add_name_to_dependencies, ir_data.EnumValue: dc._add_name_to_dependencies, ir_data.RuntimeParameter: dc._add_name_to_dependencies}
+
+    def names(lg):
+        return [(tuple(k.__name__ for k in x[0]), x[1].__name__, sorted(k.__name__ for k in x[3])) for x in lg]
+
+    def harness(c):
+        fn = c.choice("f", ["_find_dependencies", "_find_dependency_ordering_for_fields", "set_dependency_order"])
+        del log[:]
+        inject.clear()
+        c.covered = True
+        if fn == "_find_dependencies":
+            if c.choice("keyword-error", ["no", "yes"]) == "yes":
+                inject[1] = True
+            st, got = pyvc.run_body(c, DC + "." + fn, ["IR"])
+            want = [((ir_data.Reference,), dc._add_reference_to_dependencies, NODES, {ir_data.AtomicType, ir_data.Attribute, ir_data.FieldReference}),
+                    ((ir_data.FieldReference,), dc._add_field_reference_to_dependencies, NODES, {ir_data.Attribute})]
+            c.oblige("plain-references-then-field-reference-heads-each-below-its-node", [(x[0], x[1], x[2], x[3]) for x in log] == want, detail=repr(names(log)))
+            ok = isinstance(got, tuple) and len(got) == 2 and len(log) == 2 and got[0] is log[0][4].get("dependencies") and got[0] is log[1][4].get("dependencies")
+            c.oblige("one-graph-shared-by-both-traversals-and-returned-with-the-errors", ok and got[1] == (["ERR1"] if inject.get(1) else []), detail=repr(got)[:200])
+            return
+        if fn == "_find_dependency_ordering_for_fields":
+            st, got = pyvc.run_body(c, DC + "." + fn, ["IR"])
+            want = [((ir_data.FieldReference,), dc._add_field_reference_to_dependencies, NODES, {ir_data.Attribute}), ((ir_data.Structure,), dc._find_dependency_ordering_for_fields_in_structure, {}, set())]
+            c.oblige("field-reference-edges-collected-then-every-structure-ordered-with-them", [(x[0], x[1], x[2], x[3]) for x in log] == want and len(log) == 2
+                     and log[0][4].get("dependencies") is log[1][4].get("dependencies"), detail=repr(names(log)))
+            return
+        calls = []
+        eng.contract(dc._find_dependency_ordering_for_fields, lambda interp, ir: calls.append(ir), "_find_dependency_ordering_for_fields")
+        st, got = pyvc.run_body(c, DC + ".set_dependency_order", ["IR"])
+        c.oblige("orders-the-fields-of-the-given-ir-and-reports-no-error", calls == ["IR"] and got == [], detail=repr((calls, got)))
+    paths = eng.explore(harness)
+    return pyvc.collect(paths, "dependency_wiring"), sum(1 for p in paths if p.covered)
+
+
+TARGETS["dependency_wiring"] = target_wiring
